@@ -1,11 +1,152 @@
 /-
-Props/C11.lean — property theorems for C11.
+Props/C11.lean — property theorems for C11 (DeepEqual options: excluded fields never matter, listed fields
+always do).
+
+`deq_options_correct`: for the repaired emitter model and EVERY option set (nil, empty, Exclude, Filter, both,
+any Precision) the answer of `DeepEqualWithOptions` is accepted by the structural reading `eqS`, which looks at
+a struct field exactly when `specLooksAt` says so for its dotted path (ancestors are tested on the way down)
+and compares floats with the precision the options give. `mustCheck_spec`: the decision function of options.go
+is that reading. `unlooked_field_never_matters`: a struct field the options do not look at never decides the
+answer, whatever the two (well-typed) values in it are — nil-ness of a pointer included.
+The model of the current tree differs on the class `deq-nil-before-mustcheck` (`repo_not_correct`).
 -/
-import InspectorModel.Gen.DEQ
-import InspectorModel.Spec.StructEq
+import InspectorModel.Proofs.DEQSym
 namespace Inspector.C11
 
-/-- The decision function of options.go with nil options: every field is checked. -/
+/-! ### The decision function (options.go:14-27), exhaustively -/
+
+/-- Nil options: every field is checked. -/
 theorem mustCheck_nil (path : String) : deqMustCheck path none = true := rfl
+
+/-- Empty options: every field is checked. -/
+theorem mustCheck_empty (path : String) (o : DeqOpts) (he : o.exclude = []) (hf : o.filter = []) :
+    deqMustCheck path (some o) = true := by
+  simp [deqMustCheck, he, hf]
+
+/-- A non-empty Exclude set decides alone (a Filter next to it is ignored): listed = skipped. -/
+theorem mustCheck_exclude (path : String) (o : DeqOpts) (he : o.exclude ≠ []) :
+    deqMustCheck path (some o) = !(o.exclude.contains path) := by
+  cases h : o.exclude with
+  | nil => exact absurd h he
+  | cons x xs => simp [deqMustCheck, h]
+
+/-- Only a Filter set: listed = checked. -/
+theorem mustCheck_filter (path : String) (o : DeqOpts) (he : o.exclude = []) (hf : o.filter ≠ []) :
+    deqMustCheck path (some o) = o.filter.contains path := by
+  cases h : o.filter with
+  | nil => exact absurd h hf
+  | cons x xs => simp [deqMustCheck, he, h]
+
+/-- The decision function is the specification's "is this field looked at". -/
+theorem mustCheck_spec (path : String) (opts : Option DeqOpts) : deqMustCheck path opts = specLooksAt opts path :=
+  mustCheck_eq_looksAt path opts
+
+/-! ### Precision (equal.go:5-11) -/
+
+/-- Nil options: the default tolerance. -/
+theorem equalFloat_nil (a b : Int) : equalFloat a b none = decide ((a - b).natAbs ≤ defaultPrecFx.toNat) := rfl
+
+/-- A positive Precision replaces the default tolerance. -/
+theorem equalFloat_precision (a b : Int) (o : DeqOpts) (h : o.precision > 0) :
+    equalFloat a b (some o) = decide ((a - b).natAbs ≤ o.precision.toNat) := by
+  simp [equalFloat, h]
+
+/-- A zero (or negative) Precision means the default tolerance, as nil options do. -/
+theorem equalFloat_default (a b : Int) (o : DeqOpts) (h : ¬ o.precision > 0) :
+    equalFloat a b (some o) = equalFloat a b none := by
+  simp [equalFloat, h]
+
+/-! ### The comparison under options -/
+
+/-- C11 for the repaired emitter: every option set. -/
+theorem deq_options_correct (n : Node) (a b : Val) (opts : Option DeqOpts) (ident : Bool)
+    (hroot : RootOK n = true) (hok : EmitOK n = true) (hnames : PathNamesOK n = true)
+    (hwa : WT n a = true) (hwb : WT n b = true) :
+    deqAccepts (eqS { opts := opts, ident := ident } n "" a b)
+      (deqM { cfg := GenCfg.fixed, opts := opts, ident := ident } n .ptr .ptr a b) = true := by
+  have hl : n.isLeaf = false := by
+    simp only [RootOK, Bool.and_eq_true, Bool.not_eq_true'] at hroot
+    exact hroot.2
+  exact deqM_correct n a b opts ident (isBytes_le_isLeaf n hl) hok hnames hwa hwb
+
+/-- Options do not disturb symmetry. -/
+theorem deq_options_symmetric (n : Node) (a b : Val) (opts : Option DeqOpts) (ident : Bool)
+    (hwa : WT n a = true) (hwb : WT n b = true) (hka : MapKeysOK a = true) (hkb : MapKeysOK b = true) :
+    deqM { cfg := GenCfg.fixed, opts := opts, ident := ident } n .ptr .ptr a b =
+      deqM { cfg := GenCfg.fixed, opts := opts, ident := ident } n .ptr .ptr b a :=
+  deqM_symmetric n a b opts ident hwa hwb hka hkb
+
+/-- Excluded / unlisted fields never matter: whatever two well-typed values stand in a struct field whose
+dotted path the options do not look at, the emitted comparison of that field decides nothing. -/
+theorem unlooked_field_never_matters (ch : Node) (l r : Val) (π : String) (opts : Option DeqOpts) (ident : Bool)
+    (hname : ch.name.length > 0) (hok : EmitOK ch = true) (hnames : PathNamesOK ch = true)
+    (hl : WT ch l = true) (hr : WT ch r = true)
+    (hskip : specLooksAt opts (dotted π ch.name) = false) :
+    deqN { cfg := GenCfg.fixed, opts := opts, ident := ident } ch true false π l r = .cont := by
+  have hπ := deqPath_field π ch hname
+  have h := deqN_ok opts ident l r ch true false π (dotted π ch.name) hπ
+    (fun _ => by rw [← hπ]; exact deqPath_field_len π ch hname) (fun h => by cases h) hok hnames hl hr
+  simp only [look, mustCheck_eq_looksAt, hskip, Bool.not_false, Bool.and_self, if_true] at h
+  generalize deqN (fixedEnv opts ident) ch true false π l r = x at h
+  cases x <;> first | rfl | cases h
+
+section NonVacuity
+/-- `struct { A int; F float64; P *struct{ B string; C int } }`. -/
+def exNode : Node :=
+  .struct { typn := "T" } [
+    .basic { typn := "int", typu := "int", name := "A" },
+    .basic { typn := "float64", typu := "float64", name := "F" },
+    .struct { typn := "Inner", name := "P", ptr := true } [
+      .basic { typn := "string", typu := "string", name := "B" },
+      .basic { typn := "int", typu := "int", name := "C" }]]
+def mk (a f : Int) (p : Val) : Val := .struct [.int a, .float f, p]
+def inP (b : String) (c : Int) : Val := .ptr (.struct [.str (strBytes b), .int c])
+def v0 : Val := mk 1 0 (inP "x" 1)
+def vB : Val := mk 1 0 (inP "y" 1)       -- differs in P.B
+def vNil : Val := mk 1 0 .nilptr         -- differs in the nil-ness of P
+def vF : Val := mk 1 2000 (inP "x" 1)    -- float moved by 2000·2⁻²⁰ ≈ 1.9e-3 (above the default 1e-3)
+def excl (l : List String) : Option DeqOpts := some { exclude := l }
+def filt (l : List String) : Option DeqOpts := some { filter := l }
+
+example : RootOK exNode = true ∧ EmitOK exNode = true ∧ PathNamesOK exNode = true := by decide
+example : WT exNode v0 = true ∧ WT exNode vB = true ∧ WT exNode vNil = true ∧ WT exNode vF = true := by decide
+
+/-- Excluding the differing field, or an ancestor of it, hides the difference; excluding a sibling does not. -/
+example : deqM { cfg := GenCfg.fixed, opts := excl ["P.B"] } exNode .ptr .ptr v0 vB = .t ∧
+    deqM { cfg := GenCfg.fixed, opts := excl ["P"] } exNode .ptr .ptr v0 vB = .t ∧
+    deqM { cfg := GenCfg.fixed, opts := excl ["P.C"] } exNode .ptr .ptr v0 vB = .f ∧
+    eqS { opts := excl ["P.C"] } exNode "" v0 vB = .mustNot ∧ eqS { opts := excl ["P"] } exNode "" v0 vB = .must := by decide
+/-- A filter reaches a field only through listed ancestors. -/
+example : deqM { cfg := GenCfg.fixed, opts := filt ["P", "P.B"] } exNode .ptr .ptr v0 vB = .f ∧
+    deqM { cfg := GenCfg.fixed, opts := filt ["P.B"] } exNode .ptr .ptr v0 vB = .t ∧
+    deqM { cfg := GenCfg.fixed, opts := filt ["A"] } exNode .ptr .ptr v0 vB = .t ∧
+    eqS { opts := filt ["P", "P.B"] } exNode "" v0 vB = .mustNot := by decide
+/-- Precision above the gap makes the floats equal, below it (and by default) unequal. -/
+example : deqM { cfg := GenCfg.fixed, opts := some { precision := 3000 } } exNode .ptr .ptr v0 vF = .t ∧
+    deqM { cfg := GenCfg.fixed, opts := some { precision := 1500 } } exNode .ptr .ptr v0 vF = .f ∧
+    deqM { cfg := GenCfg.fixed, opts := none } exNode .ptr .ptr v0 vF = .f ∧
+    eqS { opts := some { precision := 1500 } } exNode "" v0 vF = .mustNot := by decide
+
+/-- Known finding `deq-nil-before-mustcheck`: the nil-ness test of the pointer-typed field `P` is emitted
+outside its `DEQMustCheck` wrapper, so with `P` excluded the current tree still answers `false` for a
+difference in the nil-ness of `P`. -/
+theorem repo_not_correct :
+    deqAccepts (eqS { opts := excl ["P"] } exNode "" v0 vNil)
+      (deqM { cfg := GenCfg.repo, opts := excl ["P"] } exNode .ptr .ptr v0 vNil) = false := by
+  decide
+example : eqS { opts := excl ["P"] } exNode "" v0 vNil = .must ∧
+    deqM { cfg := GenCfg.repo, opts := excl ["P"] } exNode .ptr .ptr v0 vNil = .f ∧
+    deqM { cfg := GenCfg.fixed, opts := excl ["P"] } exNode .ptr .ptr v0 vNil = .t := by decide
+/-- The same with a filter that does not list `P`. -/
+theorem repo_not_correct_filter :
+    deqAccepts (eqS { opts := filt ["A"] } exNode "" v0 vNil)
+      (deqM { cfg := GenCfg.repo, opts := filt ["A"] } exNode .ptr .ptr v0 vNil) = false := by
+  decide
+/-- The flag `deqNilBeforeMustCheck` alone is responsible. -/
+theorem repo_not_correct_flag :
+    deqAccepts (eqS { opts := excl ["P"] } exNode "" v0 vNil)
+      (deqM { cfg := { GenCfg.fixed with deqNilBeforeMustCheck := true }, opts := excl ["P"] } exNode .ptr .ptr v0 vNil) = false := by
+  decide
+end NonVacuity
 
 end Inspector.C11
